@@ -16,7 +16,11 @@
       [comp_inv], [vol_base], [mix_inv], [known_inv], [st_inv], [st_known]   invariants
       [iwell], [iw_remove], [iw_add], [is_transfer], [is_exec]   the ideal-mixing specification
       [abs_well], [abs_state]   the abstraction (V, amt k := V * frac k)
-      [lw_amount], [total_amount]   amount of a component in a labware / in all labware *)
+      [lw_amount], [total_amount]   amount of a component in a labware / in all labware
+    and, for whole calls and programs (Proofs/MixingExtraProofs.v, restated in the last part):
+      [is_add], [is_rem], [is_op], [is_run], ...   ideal meaning of calls and programs
+      [iw_dilute], [is_addo]   a liquid of unknown composition enters ("more of what is there")
+      [well_clean], [run_clean]   no composition-less addition into an emptied well (REVIEW2 N2) *)
 From Robo Require Import Prelude Str Wells Utils Labware Tips Records Partition Params Worklist
   Invariants Mixing WellsProofs MixingProofs.
 From Robo Require Import EvoCmd Program MixingRunProofs MixingExtraProofs.
@@ -763,14 +767,54 @@ Proof. vm_compute. repeat split. Qed.
    Spec/Mixing.v, extended by the definitions restated in [C05_ideal_*] below:
      [is_add sg k L items]   liquids [(well id, volume, composition)] enter labware [k], one ideal
                              addition [iw_add] per item, in call order (a repeated well is mixed twice)
+     [is_addo sg k L items]  the same with optional compositions: an item without composition is one
+                             [iw_dilute] (see below); [is_addo] is [is_add] when every one is given
      [is_rem sg k L items]   liquid [(well id, volume)] leaves, one [iw_remove] per item
      [transfer_triples], [dist_steps]   the steps a [transfer] / [distribute] call asks for
      [is_op auto m lws o]    the ideal meaning of one accepted call: [Some f], or [None] if the call
-                             has none (unknown labware, non-finite volume, missing composition, ...)
+                             has none (unknown labware, non-finite volume, unknown partitioning mode, ...)
      [is_run auto m lws ops] the calls of a program one after the other
      [is_partial], [is_partial_step], [ideal_run]   what rejected calls can leave behind
    Well ids are resolved by [lw_index] on the labware's geometry, which no call ever changes
-   ([C05_frame]); trough wells addressed through different virtual rows are the same real well. *)
+   ([C05_frame]); trough wells addressed through different virtual rows are the same real well.
+
+   WHAT THE REFERENCE BORROWS FROM THE MODEL (audit REVIEW2, N2b).  [iwell], [iw_add], [iw_remove],
+   [is_transfer], [is_exec] (Spec/Mixing.v) and [iw_dilute], [is_add], [is_addo], [is_rem] know
+   nothing of the composition tracking.  But the ideal meaning [is_op] of a TRANSFER executes the
+   step list computed by the model's own planner: [plan], [optimize_partition_by], and the argument
+   handling [broadcast], [flattenF], [lw_index], [evo_vols] in [C05_ideal_op] / [C05_ideal_steps]
+   are the model's functions.  Mixing is order-sensitive (A -> B then B -> C is not B -> C then
+   A -> B), so "the fold of ideal pipetting steps" is relative to the step ORDER the model itself
+   plans; C05 does not say that this order is the right one.  The order is pinned down elsewhere:
+   by C07 (C07_group_structure, C07_steps_perm: the steps of the plan are those of the requested
+   triples, regrouped; C07_flows, C07_flows_perm, C07_flows_mode: the VOLUME flow per (source,
+   destination) pair equals the requested one, independent of the order of the triples and of the
+   mode - the compositions are not) and by C18 (C18_group_order, C18_row_order: groups in ascending
+   column order, rows ascending within a group; the order among equal keys, C18_stable_model, is
+   declared model-only there).  For a [distribute] the order is that of the wells as given
+   ([dist_steps]), for [add] / [remove] that of the call's items.
+
+   CALLS WITHOUT A COMPOSITION (audit REVIEW2, N2a).  The English property speaks about "dispenses
+   of known composition" only.  The plain calls [wl.dispense(labware, wells, volumes)] /
+   [labware.add(wells, volumes)] ([compositions=None], or a [None] entry in the list) - the form
+   most scripts use - bring in a liquid of which nothing is known.  They are given an ideal meaning
+   by a modelling decision: [iw_dilute], the volume grows and every fraction is kept, i.e. the new
+   liquid is booked as "more of what is already there".  The library does exactly that ([Labware.add]
+   leaves the fractions alone when no composition is given), so this is what a reader of the
+   reported compositions gets; it is NOT volumetric mixing of known liquids.
+   Empty well: nothing is there, so nothing is known afterwards - all amounts stay 0
+   ([C05_ideal_dilute], third clause, proved without looking at the quotient [(0 + v) / 0]; nothing
+   rests on Coq's x / 0 = 0).  Here model and reference DISAGREE in one situation: a well that once
+   held liquid and was emptied keeps its last fractions in the library's (and the model's)
+   component table, and a later composition-less addition revives them - 30 ul of unknown liquid
+   into the emptied "stock" well are reported as 30 ul of stock ([C05_run_refines_unknown_refuted];
+   checked against the library, robotools behaves the same).  The theorems for this wider class,
+   [C05_*_unknown], therefore carry the explicit hypothesis [run_clean]: every well addressed
+   without a composition holds liquid, or has no fraction recorded (a never-filled well), in the
+   state the call starts from; it is decided by [run_cleanb] ([C05_clean_check]), holds trivially
+   when every composition is given ([C05_mix_is_clean]) and is satisfiable
+   ([C05_example_unknown]).  The theorems for the narrower class [op_mix] (every composition
+   given) are kept as they were. *)
 
 #[local] Close Scope string_scope.
 
@@ -796,6 +840,30 @@ Theorem C05_ideal_rem : forall sg k L,
 Proof. exact is_rem_spec. Qed.
 Print Assumptions C05_ideal_rem.
 
+(** a liquid of unknown composition enters an ideal well: the definition; in a well that is not
+    empty every fraction is kept; in a well without tracked amounts (e.g. an empty one) nothing is
+    known afterwards, whatever the quotient is *)
+Theorem C05_ideal_dilute : forall w v,
+  iw_dilute w v = {| iw_vol := iw_vol w + v;
+                     iw_amt := fun k => iw_amt w k * ((iw_vol w + v) / iw_vol w) |} /\
+  (~ iw_vol w == 0 -> ~ iw_vol w + v == 0 -> forall k, iw_frac (iw_dilute w v) k == iw_frac w k) /\
+  ((forall k, iw_amt w k == 0) -> forall k, iw_amt (iw_dilute w v) k == 0).
+Proof. exact iw_dilute_spec. Qed.
+Print Assumptions C05_ideal_dilute.
+
+Theorem C05_ideal_addo : forall sg k L,
+  is_addo sg k L [] = sg /\
+  forall w v oc r, is_addo sg k L ((w, v, oc) :: r) =
+    match lw_index L w with
+    | Some i => is_addo (is_upd sg k i (match oc with
+                                        | Some c => iw_add (sg k i) v (fun x => cget x c)
+                                        | None => iw_dilute (sg k i) v
+                                        end)) k L r
+    | None => sg
+    end.
+Proof. exact is_addo_spec. Qed.
+Print Assumptions C05_ideal_addo.
+
 (** the steps of a [transfer] (numpy broadcasting of the three arguments) and of a [distribute] *)
 Theorem C05_ideal_steps : forall swells dwells (vols : arr Q) col (dw : arr string) v,
   transfer_triples swells dwells vols =
@@ -803,25 +871,26 @@ Theorem C05_ideal_steps : forall swells dwells (vols : arr Q) col (dw : arr stri
      let nmax := Nat.max (length sw) (Nat.max (length dw) (length vs)) in
      zip (zip (broadcast sw nmax) (broadcast dw nmax)) (broadcast vs nmax)) /\
   dist_steps col dw v = map (fun w => Step (well_id 0 (Z.to_nat col)) w v) (flattenF dw).
-Proof. exact (fun _ _ _ _ _ _ => conj eq_refl eq_refl). Qed.
+Proof. exact steps_spec. Qed.
 Print Assumptions C05_ideal_steps.
 
-(** [all_some] / [xq_list]: all compositions are given / all volumes are finite numbers *)
-Theorem C05_ideal_lists : forall (l : list (option composition)) (xs : list composition),
-  (all_some l = Some xs <-> l = map Some xs) /\
-  (forall (vs : list xnum) (qs : list Q), xq_list vs = Some qs <-> vs = map XQ qs).
-Proof. exact (@all_some_spec composition). Qed.
+(** [xq_list]: all volumes are finite numbers; [comps_list]: the [compositions] argument as a list
+    ([None] = no composition for any well); with every composition given [is_addo] is [is_add] *)
+Theorem C05_ideal_lists :
+  (forall (vs : list xnum) (qs : list Q), xq_list vs = Some qs <-> vs = map XQ qs) /\
+  (forall comps n, comps_list comps n = match comps with Some cs => cs | None => repeat None n end) /\
+  (forall k L (ws : list string) (vs : list Q) (cs : list composition) W,
+     is_addo W k L (zip (zip ws vs) (map Some cs)) = is_add W k L (zip (zip ws vs) cs)).
+Proof. exact call_lists_spec. Qed.
 Print Assumptions C05_ideal_lists.
 
 Theorem C05_ideal_call_shapes : forall lws k wells vols comps,
   is_addcall lws k wells vols comps =
-    match comps with
-    | Some cs0 =>
-        match all_some cs0, xq_list (broadcast (flattenF vols) (length (flattenF wells))), nth_error lws k with
-        | Some cs, Some vs, Some L => Some (fun W => is_add W k L (zip (zip (flattenF wells) vs) cs))
-        | _, _, _ => None
-        end
-    | None => None
+    match xq_list (broadcast (flattenF vols) (length (flattenF wells))), nth_error lws k with
+    | Some vs, Some L =>
+        Some (fun W => is_addo W k L
+                         (zip (zip (flattenF wells) vs) (comps_list comps (length (flattenF wells)))))
+    | _, _ => None
     end /\
   is_remcall lws k wells vols =
     match xq_list (broadcast (flattenF vols) (length (flattenF wells))), nth_error lws k with
@@ -832,7 +901,12 @@ Proof. exact call_shapes_spec. Qed.
 Print Assumptions C05_ideal_call_shapes.
 
 (** one accepted call ([auto], [m]: auto_split_tips and max_volume of the worklist; [lws]: the
-    labware set, of which only the geometries are looked at) *)
+    labware set, of which only the geometries are looked at).
+    N2b: the step list of a transfer is the one the MODEL's [plan] computes (mode from the model's
+    [optimize_partition_by], arguments through the model's [flattenF] / [broadcast]); the reference
+    fixes what every step does ([is_exec] / [is_transfer]), not the order of the steps - see the
+    header of this section; the order is the subject of C07 / C18.
+    N2a: [is_addcall] gives calls without a composition the meaning [iw_dilute]. *)
 Theorem C05_ideal_op : forall auto m lws o,
   is_op auto m lws o =
   match o with
@@ -893,6 +967,41 @@ Theorem C05_run_classes : forall (o : op) (e : option err),
   call_ok o e = (e = None \/ op_effectless o).
 Proof. exact run_classes_spec. Qed.
 Print Assumptions C05_run_classes.
+
+(** the wider class (N2a): [op_comps_ok o] ([C05_op_classes]: every composition that IS given is a
+    dict of fractions, missing ones allowed) together with
+      [well_clean L i]   the tracked well is not an emptied well with left-over fractions
+      [plain_clean]      every well an [add] addresses without a composition is clean
+      [op_clean s o]     ... for the call [o] in the state [s] it starts from
+      [run_clean s ops]  ... for every call of a program, in the state the model has reached *)
+Theorem C05_clean_classes :
+  (forall L i, well_clean L i = (~ vol_at L i == 0 \/ forall x, frac L x i == 0)) /\
+  (forall L wells comps, plain_clean L wells comps =
+     Forall (fun wc => snd wc = None -> forall i, lw_index L (fst wc) = Some i -> well_clean L i)
+            (zip (flattenF wells) (comps_list comps (length (flattenF wells))))) /\
+  (forall s o, op_clean s o =
+     match o with
+     | OAdd k ws _ _ cs => forall L, nth_error (st_lw s) k = Some L -> plain_clean L ws cs
+     | ODispense k ws _ _ cs _ => forall L, nth_error (st_lw s) k = Some L -> plain_clean L ws cs
+     | OEvoDisp k a _ cs => forall L, nth_error (st_lw s) k = Some L -> plain_clean L (c_wells a) cs
+     | _ => True
+     end) /\
+  (forall s, run_clean s [] = True) /\
+  (forall s o r, run_clean s (o :: r) = (op_clean s o /\ run_clean (fst (step s o)) r)).
+Proof. exact clean_spec. Qed.
+Print Assumptions C05_clean_classes.
+
+(** [op_mix] is the special case in which nothing has to be checked *)
+Theorem C05_mix_is_clean :
+  (forall s o, op_mix o -> op_comps_ok o /\ op_clean s o) /\
+  (forall ops, Forall op_mix ops -> Forall op_comps_ok ops /\ forall s, run_clean s ops).
+Proof. exact mix_clean_spec. Qed.
+Print Assumptions C05_mix_is_clean.
+
+(** [run_clean] is decidable *)
+Theorem C05_clean_check : forall ops s, run_cleanb s ops = true -> run_clean s ops.
+Proof. exact run_cleanb_ok. Qed.
+Print Assumptions C05_clean_check.
 
 (* ------------------------------------------------------------------ (a) transfer, with its plan named *)
 
@@ -1053,7 +1162,10 @@ Print Assumptions C05_step_refines.
 (** THE RUN-LEVEL STATEMENT: for a program of transfers, distributions, additions / dispenses with
     given compositions, removals / aspirations (also the EVOware commands), [condense_log] and
     record-only calls whose liquid-moving calls were all accepted, every call has an ideal
-    meaning and the final tracked state is the fold of these meanings over the initial state *)
+    meaning and the final tracked state is the fold of these meanings over the initial state.
+    [op_mix] EXCLUDES the plain calls [dispense(labware, wells, volumes)] / [add(wells, volumes)]
+    without [compositions] (and lists with [None] entries): for programs containing them see
+    [C05_run_refines_unknown] below, which needs the extra hypothesis [run_clean]. *)
 Theorem C05_run_refines : forall ops s, st_inv s -> Forall op_mix ops ->
   Forall2 call_ok ops (snd (run s ops)) ->
   exists F, is_run (w_autosplit (st_wl s)) (w_max (st_wl s)) (st_lw s) ops = Some F /\
@@ -1114,7 +1226,7 @@ Proof. exact ops_mix_check. Qed.
 Print Assumptions C05_mix_check.
 
 Theorem C05_is_none : forall e : option err, is_none e = match e with None => true | Some _ => false end.
-Proof. exact (fun e => eq_refl). Qed.
+Proof. exact is_none_spec. Qed.
 Print Assumptions C05_is_none.
 
 Theorem C05_run_refines_built : forall cs lws w ops, build_all cs = Some lws ->
@@ -1125,6 +1237,94 @@ Theorem C05_run_refines_built : forall cs lws w ops, build_all cs = Some lws ->
                       (F (abs_state {| st_lw := lws; st_wl := w |}) k i).
 Proof. exact run_refines_built. Qed.
 Print Assumptions C05_run_refines_built.
+
+(* ------------------------------------------------------------------ (d') whole programs, compositions may be
+   missing (REVIEW2 N2a; see the header of this section).  Same conclusions as the theorems above,
+   for the class [op_comps_ok] (every composition that IS given is a dict of fractions) instead of
+   [op_mix], under the additional hypothesis [run_clean] ([C05_clean_classes]); a call without a
+   composition means [iw_dilute], "more of what is there", on every well it addresses. *)
+
+(** one call *)
+Theorem C05_step_refines_unknown : forall s0 s o, st_inv s ->
+  map lw_geom (st_lw s) = map lw_geom (st_lw s0) /\
+  w_max (st_wl s) = w_max (st_wl s0) /\ w_autosplit (st_wl s) = w_autosplit (st_wl s0) ->
+  op_comps_ok o -> op_clean s o -> call_ok o (snd (step s o)) ->
+  exists f, is_op (w_autosplit (st_wl s0)) (w_max (st_wl s0)) (st_lw s0) o = Some f /\
+    forall k i, iw_eq (abs_state (fst (step s o)) k i) (f (abs_state s) k i).
+Proof. exact step_refines_unknown. Qed.
+Print Assumptions C05_step_refines_unknown.
+
+(** THE RUN-LEVEL STATEMENT for programs that also contain the plain calls [dispense(labware, wells,
+    volumes)] / [add(wells, volumes)] *)
+Theorem C05_run_refines_unknown : forall ops s, st_inv s -> Forall op_comps_ok ops -> run_clean s ops ->
+  Forall2 call_ok ops (snd (run s ops)) ->
+  exists F, is_run (w_autosplit (st_wl s)) (w_max (st_wl s)) (st_lw s) ops = Some F /\
+    forall k i, iw_eq (abs_state (fst (run s ops)) k i) (F (abs_state s) k i).
+Proof. exact run_refines_unknown. Qed.
+Print Assumptions C05_run_refines_unknown.
+
+Theorem C05_run_refines_accepted_unknown : forall ops s, st_inv s -> Forall op_comps_ok ops ->
+  run_clean s ops -> Forall (fun e => e = None) (snd (run s ops)) ->
+  exists F, is_run (w_autosplit (st_wl s)) (w_max (st_wl s)) (st_lw s) ops = Some F /\
+    forall k i, iw_eq (abs_state (fst (run s ops)) k i) (F (abs_state s) k i).
+Proof. exact run_refines_accepted_unknown. Qed.
+Print Assumptions C05_run_refines_accepted_unknown.
+
+Theorem C05_run_refines_prefix_unknown : forall ops s n, st_inv s -> Forall op_comps_ok ops ->
+  run_clean s (firstn n ops) ->
+  Forall2 call_ok (firstn n ops) (firstn n (snd (run s ops))) ->
+  exists F, is_run (w_autosplit (st_wl s)) (w_max (st_wl s)) (st_lw s) (firstn n ops) = Some F /\
+    forall k i, iw_eq (abs_state (fst (run s (firstn n ops))) k i) (F (abs_state s) k i).
+Proof. exact run_refines_prefix_unknown. Qed.
+Print Assumptions C05_run_refines_prefix_unknown.
+
+Theorem C05_run_refines_constructed_unknown : forall lws w ops,
+  Forall (fun L => (exists a, mk_labware a = Ok L) \/ (exists a, mk_trough a = Ok L)) lws ->
+  Forall op_comps_ok ops -> run_clean {| st_lw := lws; st_wl := w |} ops ->
+  Forall2 call_ok ops (snd (run {| st_lw := lws; st_wl := w |} ops)) ->
+  exists F, is_run (w_autosplit w) (w_max w) lws ops = Some F /\
+    forall k i, iw_eq (abs_state (fst (run {| st_lw := lws; st_wl := w |} ops)) k i)
+                      (F (abs_state {| st_lw := lws; st_wl := w |}) k i).
+Proof. exact run_refines_constructed_unknown. Qed.
+Print Assumptions C05_run_refines_constructed_unknown.
+
+(** restart after a rejected call: of the calls of [ops1] only the invariant is needed *)
+Theorem C05_run_refines_restart_unknown : forall ops1 ops2 s, st_inv s ->
+  Forall op_comps_ok ops1 -> Forall op_comps_ok ops2 ->
+  let s1 := fst (run s ops1) in
+  run_clean s1 ops2 -> Forall2 call_ok ops2 (snd (run s1 ops2)) ->
+  exists F, is_run (w_autosplit (st_wl s)) (w_max (st_wl s)) (st_lw s) ops2 = Some F /\
+    forall k i, iw_eq (abs_state (fst (run s (ops1 ++ ops2))) k i) (F (abs_state s1) k i).
+Proof. exact run_refines_restart_unknown. Qed.
+Print Assumptions C05_run_refines_restart_unknown.
+
+(** with hypotheses that evaluate ([op_comps_okb]: C05_comps_check; [run_cleanb]: C05_clean_check) *)
+Theorem C05_run_refines_built_unknown : forall cs lws w ops, build_all cs = Some lws ->
+  forallb op_comps_okb ops = true ->
+  run_cleanb {| st_lw := lws; st_wl := w |} ops = true ->
+  forallb is_none (snd (run {| st_lw := lws; st_wl := w |} ops)) = true ->
+  exists F, is_run (w_autosplit w) (w_max w) lws ops = Some F /\
+    forall k i, iw_eq (abs_state (fst (run {| st_lw := lws; st_wl := w |} ops)) k i)
+                      (F (abs_state {| st_lw := lws; st_wl := w |}) k i).
+Proof. exact run_refines_built_unknown. Qed.
+Print Assumptions C05_run_refines_built_unknown.
+
+(** [run_clean] cannot be dropped.  The statement
+      forall ops s, st_inv s -> Forall op_comps_ok ops -> Forall (fun e => e = None) (snd (run s ops)) ->
+        exists F, is_run ... ops = Some F /\ forall k i, iw_eq (abs_state (fst (run s ops)) k i) (F (abs_state s) k i)
+    is false.  Plate with 200 of "stock" in A01 (min_volume 0): aspirate the 200, then dispense 30
+    without a composition into A01.  Both calls are accepted and have an ideal meaning, the program
+    is not [run_clean]; the model (and the library) report 30 of "stock" in A01, the reference
+    knows nothing about the 30.  [C05_run_refines_unknown] is the partial statement. *)
+Theorem C05_run_refines_unknown_refuted :
+  exists s ops F, st_inv s /\ Forall op_comps_ok ops /\ snd (run s ops) = [None; None] /\
+    is_run (w_autosplit (st_wl s)) (w_max (st_wl s)) (st_lw s) ops = Some F /\
+    run_cleanb s ops = false /\
+    iw_vol (abs_state (fst (run s ops)) 0%nat 0%nat) == 30 /\ iw_vol (F (abs_state s) 0%nat 0%nat) == 30 /\
+    iw_amt (abs_state (fst (run s ops)) 0%nat 0%nat) "stock"%string == 30 /\
+    iw_amt (F (abs_state s) 0%nat 0%nat) "stock"%string == 0.
+Proof. exact run_refines_unknown_needs_clean. Qed.
+Print Assumptions C05_run_refines_unknown_refuted.
 
 (* ------------------------------------------------------------------ rejected calls *)
 
@@ -1180,14 +1380,17 @@ Proof. exact distribute_any. Qed.
 Print Assumptions C05_rejected_distribute.
 
 (** ... an addition / a removal: the ideal additions (removals) of the items before the first
-    refused one - possibly none, possibly all, when the failure came after the tracking *)
+    refused one - possibly none, possibly all, when the failure came after the tracking
+    ([is_addo]: an item without composition is one [iw_dilute]; with every composition given
+    [is_addo] is [is_add], C05_ideal_lists) *)
 Theorem C05_partial_items : forall lws k wells vols comps W W',
   partial_add lws k wells vols comps W W' =
     ((forall k' i, iw_eq (W' k' i) (W k' i)) \/
-     exists L cq vq rest, nth_error lws k = Some L /\ comps = Some (map Some cq) /\
+     exists L vq rest, nth_error lws k = Some L /\
        broadcast (flattenF vols) (length (flattenF wells)) = (map XQ vq ++ rest)%list /\
        Forall (fun v => 0 <= v) vq /\
-       forall k' i, iw_eq (W' k' i) (is_add W k L (zip (zip (flattenF wells) vq) cq) k' i)) /\
+       forall k' i, iw_eq (W' k' i)
+         (is_addo W k L (zip (zip (flattenF wells) vq) (comps_list comps (length (flattenF wells)))) k' i)) /\
   partial_rem lws k wells vols W W' =
     ((forall k' i, iw_eq (W' k' i) (W k' i)) \/
      exists L vq rest, nth_error lws k = Some L /\
@@ -1279,6 +1482,32 @@ Theorem C05_run_any_built : forall cs lws w ops, build_all cs = Some lws -> fora
             (abs_state (fst (run {| st_lw := lws; st_wl := w |} ops))).
 Proof. exact run_any_built. Qed.
 Print Assumptions C05_run_any_built.
+
+(** the same three statements when compositions may be missing ([partial_add] / [is_partial] speak
+    about [is_addo]; a rejected composition-less addition leaves the [iw_dilute]s of the items before
+    the refused one) *)
+Theorem C05_step_rejected_unknown : forall s0 s o, st_inv s ->
+  map lw_geom (st_lw s) = map lw_geom (st_lw s0) /\
+  w_max (st_wl s) = w_max (st_wl s0) /\ w_autosplit (st_wl s) = w_autosplit (st_wl s0) ->
+  op_comps_ok o -> op_clean s o -> snd (step s o) <> None ->
+  is_partial (w_autosplit (st_wl s0)) (w_max (st_wl s0)) (st_lw s0) o
+             (abs_state s) (abs_state (fst (step s o))).
+Proof. exact step_partial_unknown. Qed.
+Print Assumptions C05_step_rejected_unknown.
+
+Theorem C05_run_refines_any_unknown : forall ops s, st_inv s -> Forall op_comps_ok ops -> run_clean s ops ->
+  ideal_run (w_autosplit (st_wl s)) (w_max (st_wl s)) (st_lw s) ops (snd (run s ops))
+            (abs_state s) (abs_state (fst (run s ops))).
+Proof. exact run_refines_any_unknown. Qed.
+Print Assumptions C05_run_refines_any_unknown.
+
+Theorem C05_run_any_built_unknown : forall cs lws w ops, build_all cs = Some lws ->
+  forallb op_comps_okb ops = true -> run_cleanb {| st_lw := lws; st_wl := w |} ops = true ->
+  ideal_run (w_autosplit w) (w_max w) lws ops (snd (run {| st_lw := lws; st_wl := w |} ops))
+            (abs_state {| st_lw := lws; st_wl := w |})
+            (abs_state (fst (run {| st_lw := lws; st_wl := w |} ops))).
+Proof. exact run_any_built_unknown. Qed.
+Print Assumptions C05_run_any_built_unknown.
 
 (* ------------------------------------------------------------------ examples *)
 
@@ -1437,6 +1666,77 @@ Example C05_example_rejected :
       = [(25, [0; 0; 25; 0; 0]); (50, [0; 50; 0; 0; 0])] /\
       show (abs_state (fst (run s ex_prog3))) 0 [0; 1]%nat ["stock"; "Q.B01"; "a"; "b"; "c"]
       = [(25, [0; 0; 25; 0; 0]); (50, [0; 50; 0; 0; 0])]
+  | _ => False
+  end.
+Proof. vm_compute. repeat split. Qed.
+
+(** compositions missing (C05_run_refines_built_unknown, audit REVIEW2 N2a / experiment E6), on the
+    trough T (labware 0) and the plate P (labware 1) of [ex_ctors]: a plain dispense of 100 into
+    column 1 (500 of "T.column_01") and into the never-filled column 2 of the trough; a transfer
+    of 240 from column 1 into B01 of the plate; an [add] that addresses C01 twice, first without,
+    then with a composition.  The program is outside [op_mix]; the hypotheses of
+    C05_run_refines_built_unknown evaluate to true and it has an ideal meaning ... *)
+Definition ex_prog4 : list op :=
+  [ ODispense 0 (A1 ["A01"; "A02"]) (A0 (XQ 100)) None None kw_default;
+    OTransfer 0 (A0 "A01") 1 (A0 "B01") (A0 240) None SFlush "auto" kw_default;
+    OAdd 1 (A1 ["C01"; "C01"]) (A1 [XQ 10; XQ 40]) None (Some [None; Some [("b", 1)]]) ].
+
+Example C05_example_unknown :
+  match build_all ex_ctors with
+  | Some lws =>
+      let s := {| st_lw := lws; st_wl := ex_w0 |} in
+      forallb op_mixb ex_prog4 = false /\
+      forallb op_comps_okb ex_prog4 = true /\
+      run_cleanb s ex_prog4 = true /\
+      forallb is_none (snd (run s ex_prog4)) = true /\
+      is_run true 950 lws ex_prog4 <> None
+  | None => False
+  end.
+Proof. vm_compute. repeat split; discriminate. Qed.
+
+(** ... and the fold gives what the model tracks: the 100 of unknown liquid in column 1 count as
+    "T.column_01" (600, of which 240 go to B01), the 100 in column 2 are of nothing known; C01 of the
+    plate holds 60 of "P.C01" (50 + 10 booked as more of the same) and 40 of "b" *)
+Example C05_example_unknown_refines :
+  match build_all ex_ctors with
+  | Some lws =>
+      let s := {| st_lw := lws; st_wl := ex_w0 |} in
+      match is_run true 950 lws ex_prog4 with
+      | Some F =>
+          show (F (abs_state s)) 0 [0; 1; 2]%nat ["T.column_01"; "water"]
+          = [(360, [360; 0]); (100, [0; 0]); (100, [0; 100])] /\
+          show (abs_state (fst (run s ex_prog4))) 0 [0; 1; 2]%nat ["T.column_01"; "water"]
+          = [(360, [360; 0]); (100, [0; 0]); (100, [0; 100])] /\
+          show (F (abs_state s)) 1 [0; 1; 2; 3]%nat ["stock"; "P.B01"; "P.C01"; "T.column_01"; "b"]
+          = [(200, [200; 0; 0; 0; 0]); (290, [0; 50; 0; 240; 0]); (100, [0; 0; 60; 0; 40]);
+             (50, [0; 0; 0; 0; 0])] /\
+          show (abs_state (fst (run s ex_prog4))) 1 [0; 1; 2; 3]%nat
+               ["stock"; "P.B01"; "P.C01"; "T.column_01"; "b"]
+          = [(200, [200; 0; 0; 0; 0]); (290, [0; 50; 0; 240; 0]); (100, [0; 0; 60; 0; 40]);
+             (50, [0; 0; 0; 0; 0])]
+      | None => False
+      end
+  | None => False
+  end.
+Proof. vm_compute. repeat split. Qed.
+
+(** the emptied well of C05_run_refines_unknown_refuted on plate Q ([ex_args_q]: 200 of "stock" in
+    A01, min_volume 0): after the aspirate A01 is empty but keeps the fraction 1 of "stock", so the
+    plain dispense is not [run_clean]; the model then reports 30 of "stock" *)
+Example C05_example_unknown_emptied :
+  match build_all [CPlate ex_args_q] with
+  | Some [L] =>
+      let s := {| st_lw := [L]; st_wl := ex_w0 |} in
+      let prog := [ OAspirate 0 (A0 "A01") (A0 (XQ 200)) None kw_default;
+                    ODispense 0 (A0 "A01") (A0 (XQ 30)) None None kw_default ] in
+      snd (run s prog) = [None; None] /\
+      run_cleanb s (firstn 1 prog) = true /\ run_cleanb s prog = false /\
+      show (abs_state (fst (run s (firstn 1 prog)))) 0 [0]%nat ["stock"] = [(0, [0])] /\
+      match st_lw (fst (run s (firstn 1 prog))) with
+      | [L1] => Qred (frac L1 "stock" 0) = 1
+      | _ => False
+      end /\
+      show (abs_state (fst (run s prog))) 0 [0]%nat ["stock"] = [(30, [30])]
   | _ => False
   end.
 Proof. vm_compute. repeat split. Qed.
